@@ -41,8 +41,8 @@ def self_check_exprs(ctx, cases):
         except (KeyError, IndexError):
             raise ToolError(f"self-check: unexpected AST shape for {q['src']!r}")
         if render.norm_real(real) != render.to_project_expr(c["ast"]):
-            raise ToolError("renderer self-check failed (spec AST != parse(render(AST))):\n" + q["src"] + "\n" +
-                            json.dumps(render.norm_real(real)) + "\n" + json.dumps(render.to_project_expr(c["ast"])))
+            _selfcheck_mismatch(ctx, "renderer self-check failed (spec AST != parse(render(AST)))", q["src"] + "\n" +
+                                json.dumps(render.norm_real(real)) + "\n" + json.dumps(render.to_project_expr(c["ast"])))
     return parse_rejects
 
 
@@ -119,6 +119,20 @@ def evaluate(ctx, cases, per_batch=120):
         else:
             raise ToolError(f"e2e tool problem for case {c['id']}: {o.get('err')}")
     return res
+
+
+def _selfcheck_mismatch(ctx, what, text):
+    """parse(render(t)) != t. The renderer is validated on the unchanged tree, so on a changed tree this means the PARSER reads
+    the documented form differently. It is not a verdict by itself: the case goes on to the real pipeline with the expectation
+    the specification computed for t, and a wrong behaviour is then reported there. (VERIF_STRICT_SELFCHECK=1: stop - used while
+    developing the renderer.)"""
+    import os
+    if os.environ.get("VERIF_STRICT_SELFCHECK") == "1":
+        raise ToolError(what + ":\n" + text)
+    ctx.stats["selfcheck_mismatches"] = ctx.stats.get("selfcheck_mismatches", 0) + 1
+    if len(ctx.stats.setdefault("selfcheck_mismatch_samples", [])) < 3:
+        ctx.stats["selfcheck_mismatch_samples"].append(text[:600])
+    common.log("[self-check] " + what + " (case kept; judged by its behaviour)")
 
 
 HELPER = "def h{N}(a: int) -> int:\n    println(a)\n    return a + 1\n"
@@ -242,8 +256,8 @@ def self_check_ctl(ctx, cases):
         real = render.norm_real(ob["ast"]["decls"][2]["body"])
         want = render.to_project_block(c["ast"])
         if real != want:
-            raise ToolError("renderer self-check failed for a control-flow program:\n" + q["src"] + "\n" + json.dumps(real)[:2500] +
-                            "\n" + json.dumps(want)[:2500])
+            _selfcheck_mismatch(ctx, "renderer self-check failed for a control-flow program", q["src"] + "\n" + json.dumps(real)[:2500] +
+                                "\n" + json.dumps(want)[:2500])
     return rejects
 
 
@@ -259,8 +273,8 @@ def self_check_progs(ctx, cases):
         real = render.norm_real(ob["ast"]["decls"][0]["body"])
         want = render.to_project_block(c["ast"])
         if real != want:
-            raise ToolError("renderer self-check failed for a statement program:\n" + q["src"] + "\n" + json.dumps(real)[:1500] +
-                            "\n" + json.dumps(want)[:1500])
+            _selfcheck_mismatch(ctx, "renderer self-check failed for a statement program", q["src"] + "\n" + json.dumps(real)[:1500] +
+                                "\n" + json.dumps(want)[:1500])
     return rejects
 
 
@@ -322,6 +336,6 @@ def self_check_data(ctx, cases):
         real = render.norm_real(ob["ast"]["decls"][0]["body"])
         want = render.to_project_block(c["ast"])
         if real != want:
-            raise ToolError("renderer self-check failed for a data program:\n" + q["src"] + "\n" + json.dumps(real)[:2500] +
-                            "\n" + json.dumps(want)[:2500])
+            _selfcheck_mismatch(ctx, "renderer self-check failed for a data program", q["src"] + "\n" + json.dumps(real)[:2500] +
+                                "\n" + json.dumps(want)[:2500])
     return rejects
